@@ -36,8 +36,11 @@ PAIRINGS = {   # name -> (group spec, prefixed member alone, unprefixed member a
     "8.3.0+sc:score_2.0.0+tl:testlib_2.1.0": (("8.3.0", "sc:score_2.0.0", "tl:testlib_2.1.0"), "testlib_2.1.0",
                                               "8.3.0", "tl:"),
     "score_2.0.0+st:8.3.0": (("score_2.0.0", "st:8.3.0"), "8.3.0", "score_2.0.0", "st:"),
+    # members of different schema generations (text rules differ between 8.2.0 and 8.3.0)
+    "8.2.0+sc:score_2.0.0": (("8.2.0", "sc:score_2.0.0"), "score_2.0.0", "8.2.0", "sc:"),
+    "8.3.0+sc:score_1.1.0": (("8.3.0", "sc:score_1.1.0"), "score_1.1.0", "8.3.0", "sc:"),
 }
-QUICK = ["8.3.0+sc:score_2.0.0", "8.2.0+tl:testlib_3.0.0"]
+QUICK = ["8.3.0+sc:score_2.0.0", "8.2.0+tl:testlib_3.0.0", "8.2.0+sc:score_2.0.0"]
 
 
 def prefix_tree(tree, p):
@@ -94,6 +97,17 @@ def codes(text, defs, schema):
     return Counter(i["code"] for i in issues if i["severity"] == 1)
 
 
+def _generation(version):
+    """'8.3+' or 'pre-8.3' for a standard version or the standard partner of a library."""
+    std = hedenv.PARTNERED.get(version, version)
+    parts = tuple(int(x) for x in std.split(".")[:2])
+    return "8.3+" if parts >= (8, 3) else "pre-8.3"
+
+
+TEXT_PROBES = ["Label/Caf\u00e9", "Red, Label/na\u00efve-x", "(Label/\u65e5\u672c, Blue)", "Label/a$b", "Label/x y"]
+_probed = set()
+
+
 def oracle_differential(case):
     out = Outcome()
     spec = PAIRINGS[case["pairing"]][0]
@@ -110,6 +124,20 @@ def oracle_differential(case):
         out.bad(f"group-verdict-differs:{case['side']}:" + "+".join(diff),
                 f"{case['pairing']}: alone({case['alone']}) {case['text_alone']!r} -> {dict(a)}; group "
                 f"{case['text_group']!r} -> {dict(g)}; defs={case['defs_group']}")
+    # text rules (which characters a value may hold) belong to the member schema, not to the group
+    if case["pairing"] not in _probed:
+        _probed.add(case["pairing"])
+        spec_, pref_alone_, unpref_alone_, p_ = PAIRINGS[case["pairing"]]
+        for probe in TEXT_PROBES:
+            for member, pp_ in ((unpref_alone_, ""), (pref_alone_, p_)):
+                alone_codes = codes(probe, [], hedenv.schema(member))
+                group_codes = codes(gen_hed_text_prefix(probe, pp_), [], group)
+                if alone_codes != group_codes:
+                    gens = {_generation(v.split(":")[-1]) for v in spec_}
+                    kind = "mixed-generations" if len(gens) > 1 else "same-generation"
+                    out.bad(f"group-verdict-differs:text-rules:{kind}", f"{case['pairing']} (order {case.get('order')}): "
+                            f"{gen_hed_text_prefix(probe, pp_)!r} -> {dict(group_codes)}; {probe!r} against {member} "
+                            f"alone -> {dict(alone_codes)}")
     # a prefix that is not loaded, or not alphabetic, is an error
     if case["side"] == "prefixed" and not case["mutation"]:
         first = case["first_tag"]
